@@ -278,16 +278,38 @@ pub fn take_probes() -> BTreeMap<&'static str, u64> {
 pub fn canon_text(text: &str, opts: &OptSpec) -> String {
     let mut out = text.to_owned();
     for raw in [Some(&opts.input), opts.output.as_ref()].into_iter().flatten() {
-        if !raw.contains("..") {
+        if !raw.contains("..") && !raw.contains("/.") {
             continue;
         }
         let canonical = crate::gen::normalize(raw);
         for spelled in [raw.trim_end_matches('/').to_owned(), crate::gen::lexical_normalize(raw)] {
             if spelled != canonical && !spelled.is_empty() && !canonical.is_empty() {
-                out = out.replace(&spelled, &canonical);
+                out = replace_path(&out, &spelled, &canonical);
             }
         }
     }
+    out
+}
+
+/// Replace `spelled` by `canonical` where it stands as a whole path or as the leading
+/// directories of one (followed by `/` or by something that cannot continue a name).
+fn replace_path(text: &str, spelled: &str, canonical: &str) -> String {
+    let is_name_char = |c: char| c.is_alphanumeric() || matches!(c, '.' | '_' | '-');
+    let mut out = String::with_capacity(text.len());
+    let mut rest = text;
+    while let Some(pos) = rest.find(spelled) {
+        let after = &rest[pos + spelled.len()..];
+        let before_ok = !rest[..pos].chars().next_back().map(|c| is_name_char(c) || c == '/').unwrap_or(false);
+        let after_ok = !after.chars().next().map(is_name_char).unwrap_or(false);
+        out.push_str(&rest[..pos]);
+        if before_ok && after_ok {
+            out.push_str(canonical);
+        } else {
+            out.push_str(spelled);
+        }
+        rest = after;
+    }
+    out.push_str(rest);
     out
 }
 
